@@ -46,10 +46,41 @@ class C20(Prop):
                    'the finite domain is an under-approximation of "all re-assignments" (exploration)']
     floors = {'quick': (200, 40), 'thorough': (4000, 800)}
     must_reach = ['discrete_time/explainer:LTLExplainer.visitPredicate']
-    quick_cases = 1200
+    quick_cases = 2000
     thorough_cases = 100000
 
+    def gen_multi_occurrence(self, rng):
+        """One variable under several temporal windows (nested / overlapping / disjoint), combined by Boolean
+        operators: the per-variable explanation has to merge the intervals of all occurrences."""
+        x = lang.V(rng.choice(['x', 'y']))
+        n = rng.randint(4, 10)
+
+        def leaf():
+            p = lang.N(rng.choice(['geq', 'leq', 'gt', 'lt']), x, lang.C(rng.choice([0.0, 1.0, 2.0, 3.0])))
+            r = rng.random()
+            if r < 0.2:
+                return p
+            o = rng.choice(['eventually', 'always', 'once', 'historically', 'eventually', 'always'])
+            if rng.random() < 0.25:
+                return lang.N(o, p)
+            a = rng.randint(0, 3)
+            b = rng.randint(a, min(a + 5, n))
+            q = lang.N(o, p, ivl=(a, b))
+            if rng.random() < 0.3:
+                q = lang.N(rng.choice(['next', 'prev', 'not', 'rise', 'fall']), q)
+            return q
+        f = leaf()
+        for _ in range(rng.randint(1, 3)):
+            o = rng.choice(['or', 'and', 'implies', 'or', 'and'])
+            f = lang.N(o, f, leaf()) if rng.random() < 0.5 else lang.N(o, leaf(), f)
+        if rng.random() < 0.2:
+            f = lang.N('not', f)
+        names = lang.variables(f)
+        return {'formula': f, 'data': lang.gen_trace(rng, names, n)}
+
     def gen(self, rng, ctx):
+        if rng.random() < 0.4:
+            return self.gen_multi_occurrence(rng)
         nv = rng.choice([1, 2, 2, 3])
         c = lang.GenCfg(vars=list(lang.VAR_POOL[:nv]), max_depth=rng.choice([1, 2, 2, 3, 4, 5]), since_until=False,
                         max_bound=rng.choice([1, 2, 3]), div=False)
